@@ -22,7 +22,7 @@ def audit_shared_state():
     import os, re
     pat = re.compile(r"static\s+mut\b|thread_local!|\bCell<|\bRefCell<|\bMutex<|\bRwLock<|\bAtomic[A-Z]\w*|lazy_static|OnceCell|OnceLock|\bunsafe\b\s*(\{|fn|impl)")
     bad = []
-    for root, _, files in os.walk("/repo/src"):
+    for root, _, files in os.walk(os.path.join(os.environ.get("FQ_REPO", "/repo"), "src")):
         for fn in files:
             if not fn.endswith(".rs") or fn == "verif_hooks.rs":
                 continue
